@@ -2,36 +2,77 @@
    Property theorems only, about the model PathDB/History.v of /repo/triedb/pathdb
    (reader.go HistoricReader / HistoricalStateReader, history_reader.go,
    history_indexer.go indexSingle / unindexSingle / extend / shorten / prune);
-   proofs in PathDB/HistoryReadProofs.v (on top of PathDB/HistoryProofs.v).
+   proofs in PathDB/HistoryReadProofs.v and PathDB/HistoryIxProofs.v (on top of
+   PathDB/HistoryProofs.v).
 
-   [l0] is the chain of committed transitions (newest first), [CInv r0 l0 st] says the
+   [l0] is the chain of committed transitions (newest first), [Inv] / [CInv] say the
    database represents it (C17), [IxInv l0 (fr st) x] that the indexer [x] is in its
    synchronous mode, indexed up to the disk layer, and that for every retained history
    id the id list of a key contains it exactly when that transition changed the key.
-   [sem_rev l] is the state of the chain suffix [l].  Accounts and slots only; the
-   trie-node reader is not modelled; the background phase of the indexer is explored
-   by the correspondence only. *)
+   [sem_rev l] is the state of the chain suffix [l].  [reach18 c r0 st]: st is reachable
+   from the empty database (indexing on) by ANY history of Update (well-formed caller
+   input) / Commit / cap / Recover / index-pruner steps.  The configuration flags
+   cfg_legacy_meta / cfg_legacy_reader / cfg_legacy_initer = true select the code before the three repairs
+   this property led to; the theorems are about the repaired code (false), the
+   refutations about the legacy code.  Accounts and slots only; the trie-node reader is
+   not modelled; the background phase of the indexer is explored only. *)
 From Coq Require Import Sorted.
-From GV Require Import Lib.Tactics PathDB.History PathDB.HistoryProofs PathDB.HistoryReadProofs.
+From GV Require Import Lib.Tactics PathDB.History PathDB.HistoryProofs PathDB.HistoryReadProofs PathDB.HistoryIxProofs.
 Local Open Scope N_scope.
 
-(* whenever a reader is granted for a root, the root is the canonical root of the
-   chain suffix [l] with the remembered id, and EVERY key reads exactly its value in
-   that state -- found through the index (least indexed history above the id, original
-   value stored there) or, when the key was not modified since, in the disk layer *)
+(* in every reachable state of any history: whenever a reader is granted for a root,
+   the root is the canonical root of the chain suffix [l] with the remembered id, and
+   EVERY key reads exactly its value in that state *)
+Theorem C18_hist_read_correct_reach : forall c r0 st root rd,
+  cfg_legacy_meta c = false -> reach18 c r0 st ->
+  historic_reader st root = Ok rd ->
+  exists l0 pre l, Inv r0 l0 st /\ l0 = pre ++ l /\ len l = rd_id rd /\ root_rev r0 l = root /\
+                   forall k, hist_read st root k = Ok (sem_rev l k).
+Proof. exact hist_read_correct_reach. Qed.
+Print Assumptions C18_hist_read_correct_reach.
+
+(* a reader kept from ANY earlier state of the history (across commits, tail pruning,
+   rollbacks, other forks) either refuses or answers with the value of its own root's
+   state, which is then still canonical at the remembered id *)
+Theorem C18_kept_reader_sound_reach : forall c r0 st rd k v,
+  cfg_legacy_meta c = false -> cfg_legacy_reader c = false -> reach18 c r0 st ->
+  reader_read st rd k = Ok v ->
+  exists l0 pre l, Inv r0 l0 st /\ l0 = pre ++ l /\ len l = rd_id rd /\
+                   root_rev r0 l = rd_root rd /\ v = sem_rev l k.
+Proof. exact kept_reader_sound_reach. Qed.
+Print Assumptions C18_kept_reader_sound_reach.
+
+(* the invariants behind it: every reachable state represents a chain and its index *)
+Theorem C18_reach_inv : forall c r0 st,
+  cfg_legacy_meta c = false -> reach18 c r0 st ->
+  exists l x, Inv r0 l st /\ ix st = Some x /\ IxInv l (fr st) x /\ cfg st = c.
+Proof. exact reach18_inv. Qed.
+Print Assumptions C18_reach_inv.
+
+(* one operation (database operation or pruner step), successful or refused *)
+Theorem C18_op_preserves : forall r0 l st o,
+  Inv r0 l st -> IxOK l st ->
+  (forall t, o = ODb (OUpdate t) -> wf_tr (head_state st) t) ->
+  (exists l' st', do_op18 st o = Done st' /\ Inv r0 l' st' /\ IxOK l' st' /\
+                  cfg st' = cfg st /\ (ix st' = None <-> ix st = None)) \/
+  (exists e, do_op18 st o = Fail e st).
+Proof. exact op18_preserves. Qed.
+Print Assumptions C18_op_preserves.
+
+(* state-level statements *)
 Theorem C18_hist_read_correct : forall r0 l0 st x root,
   CInv r0 l0 st -> ix st = Some x -> IxInv l0 (fr st) x ->
-  forall id, historic_reader st root = Ok id ->
-  exists pre l, l0 = pre ++ l /\ len l = id /\ root_rev r0 l = root /\
+  forall rd, historic_reader st root = Ok rd ->
+  exists pre l, l0 = pre ++ l /\ len l = rd_id rd /\ root_rev r0 l = root /\
                 forall k, hist_read st root k = Ok (sem_rev l k).
 Proof. exact hist_read_correct. Qed.
 Print Assumptions C18_hist_read_correct.
 
-(* the same for a reader that only carries a state id: any retained id of the chain *)
-Theorem C18_reader_read_correct : forall r0 l0 st x id pre l,
+Theorem C18_reader_read_correct : forall r0 l0 st x rd pre l,
   CInv r0 l0 st -> ix st = Some x -> IxInv l0 (fr st) x ->
-  l0 = pre ++ l -> len l = id -> fr_tail (fr st) <= id ->
-  forall k, reader_read st id k = Ok (sem_rev l k).
+  l0 = pre ++ l -> pre <> [] -> len l = rd_id rd -> root_rev r0 l = rd_root rd ->
+  fr_tail (fr st) <= rd_id rd ->
+  forall k, reader_read st rd k = Ok (sem_rev l k).
 Proof. exact reader_read_correct. Qed.
 Print Assumptions C18_reader_read_correct.
 
@@ -46,9 +87,8 @@ Theorem C18_refuses_unretained : forall r0 l0 st x root,
 Proof. exact refuses_unretained. Qed.
 Print Assumptions C18_refuses_unretained.
 
-(* tail pruning: the freezer tail may advance and the pruner may drop, per key, all ids
-   below any cut up to the first retained history; the invariant (hence every read at
-   an id >= the new tail, by C18_reader_read_correct) is preserved *)
+(* tail pruning: the pruner may drop, per key, all ids below any cut up to the first
+   retained history, and the freezer tail may advance *)
 Theorem C18_prune_tail_preserves : forall l f x k cut,
   IxInv l f x -> IxInv l f (ix_prune_key f x k cut).
 Proof. exact prune_tail_preserves. Qed.
@@ -59,33 +99,24 @@ Theorem C18_tail_advance_preserves : forall l f x tail',
 Proof. exact ixinv_tail. Qed.
 Print Assumptions C18_tail_advance_preserves.
 
-(* indexing a newly committed transition (extend in synchronous mode) *)
-Theorem C18_extend_preserves : forall r0 l t f x,
-  IxInv l f x -> wf_tr (sem_rev l) t ->
-  fr_read f (len (t :: l)) = Some (mkHist (root_rev r0 l) (t_root t) (origs t)) ->
-  exists x', index_single f x (len (t :: l)) = Ok x' /\ IxInv (t :: l) f x'.
-Proof. exact extend_preserves. Qed.
-Print Assumptions C18_extend_preserves.
-
 (* rollback of the newest transition followed by a different transition with the same
-   id: the index describes the new fork, so all reads do.  Guard [l <> []]: the
-   rollback must not reach state id 0 (see the refutation below) *)
+   id -- down to state id 0 included: the index describes the new fork *)
 Theorem C18_shorten_then_extend : forall r0 l t t' f f' x,
-  IxInv (t :: l) f x -> wf_tr (sem_rev l) t -> wf_tr (sem_rev l) t' -> l <> [] ->
+  IxInv (t :: l) f x -> wf_tr (sem_rev l) t -> wf_tr (sem_rev l) t' ->
   fr_tail f < len (t :: l) -> fr_tail f' = fr_tail f ->
   fr_read f (len (t :: l)) = Some (mkHist (root_rev r0 l) (t_root t) (origs t)) ->
   fr_read f' (len (t' :: l)) = Some (mkHist (root_rev r0 l) (t_root t') (origs t')) ->
   exists x1 x2, unindex_single f x (len (t :: l)) = Ok x1 /\ IxInv l f x1 /\
-                index_single f' x1 (len (t' :: l)) = Ok x2 /\ IxInv (t' :: l) f' x2.
+                index_single false f' x1 (len (t' :: l)) = Ok x2 /\ IxInv (t' :: l) f' x2.
 Proof. exact shorten_then_extend. Qed.
 Print Assumptions C18_shorten_then_extend.
 
-(* FULL statement "after Recover to ANY recoverable root a well-formed transition can be
-   committed and is indexed" is FALSE of the faithful model: after a rollback to state
-   id 0 the index metadata is deleted (batchIndexer.finish, lastID = 1) and the next
-   commit appends its history and then fails in indexSingle.  Replayed on /repo. *)
+(* LEGACY code, refuted, replayed on /repo before the repair (corpus/C18): after a
+   rollback to state id 0 the index metadata is deleted and the next commit appends its
+   history and then fails in indexSingle *)
 Theorem C18_rollback_to_genesis_refuted :
   exists st root st' d e st'',
+    cfg_legacy_meta (cfg st) = true /\
     recoverable st root = true /\ recover st root = Done st' /\
     wf_tr (eff (dk st')) (d_tr d) /\ d_root d = t_root (d_tr d) /\
     d_id d = disk_id (dk st') + 1 /\
@@ -94,9 +125,32 @@ Theorem C18_rollback_to_genesis_refuted :
 Proof. exact rollback_to_genesis_refuted. Qed.
 Print Assumptions C18_rollback_to_genesis_refuted.
 
+(* LEGACY code, refuted, replayed on /repo before the repair (corpus/C18): a reader kept
+   across a Recover answers, without error, with a value that is not its state's *)
+Theorem C18_kept_reader_refuted :
+  exists st root rd st' k v v',
+    cfg_legacy_reader (cfg st) = true /\
+    historic_reader st root = Ok rd /\ reader_read st rd k = Ok v /\
+    recover st 2 = Done st' /\ reader_read st' rd k = Ok v' /\ v' <> v.
+Proof. exact kept_reader_refuted. Qed.
+Print Assumptions C18_kept_reader_refuted.
+
+(* LEGACY code, refuted, reproduced on /repo before the repair (harness/c18/initrace): a
+   rollback arriving while the initial indexing has indexed all but the newest history
+   makes Recover of a recoverable root fail and kills the initer *)
+Theorem C18_initer_shorten_refuted :
+  exists st root e st' x',
+    cfg_legacy_initer (cfg st) = true /\
+    recoverable st root = true /\ recover st root = Fail e st' /\
+    ix st' = Some x' /\ ix_dead x' = true /\ disk_id (dk st') = disk_id (dk st).
+Proof. exact initer_shorten_refuted. Qed.
+Print Assumptions C18_initer_shorten_refuted.
+
 (* four transitions with limit 3 (history 1 pruned): reads at roots 1..3 give the values
-   of those states (creation, destruct with storage, re-creation), the pruned genesis
-   root, the disk root and an unknown root are refused; after a rollback to root 2 and
-   a different fork root 2 reads the same and the abandoned root 3 is refused *)
-Example C18_nonvacuous : ex18_check = true /\ ex18_genesis_check = true.
-Proof. split; vm_compute; reflexivity. Qed.
+   of those states, pruned / disk / unknown roots are refused; after a rollback to root
+   2 and a different fork reaching id 3 again, root 2 reads the same and the abandoned
+   root 3 is refused, also through the reader kept from before; after a rollback to
+   state id 0 the next commit is indexed; a rollback during the initial indexing (all but
+   the newest history indexed) succeeds and the initer keeps running *)
+Example C18_nonvacuous : ex18_check = true /\ ex18_genesis_check = true /\ ex18_initer_check = true.
+Proof. repeat split; vm_compute; reflexivity. Qed.
